@@ -872,7 +872,8 @@ def class_call_hook(cls, extra=None, model=None):
                     key = (id(r.module), r.name)
                     if key not in module_values:
                         try:
-                            module_values[key] = Evaluator({}, None, name_hook_for(r.module, None)).ev(r.node)
+                            # with the names the rule models itself (a byte order member named in a module level tuple is the rule's member)
+                            module_values[key] = Evaluator({}, make(cls, r.module), name_hook_for(r.module, outer)).ev(r.node)
                         except Unsupported:
                             module_values[key] = Unsupported
                     if module_values[key] is not Unsupported:
